@@ -250,7 +250,7 @@ pub open spec fn is_marker(f: Frame, topic: Seq<char>, ctx: Option<Scru128Id>) -
         lemma_live_prefix(hist_frames(), n - 1);
         assert(new_sent(old(rx), rx) =~= live_of(pre));
     }
-//@@ before_stmt?: if should_follow_clone && options.limit.is_none()
+//@@ before_stmt?: if should_follow_clone
     proof {
         assert(fi_rest(&vx_it).len() == 0);
         assert(hist_frames().take(hist_frames().len() as int) =~= hist_frames());
@@ -278,6 +278,201 @@ fn read_history(store: Store, options: ReadOptions, should_follow_clone: bool, g
 //@@ epilogue
 }
 //@@ end
+
+// ================= live task =================
+// which broadcast frames the live task must forward: those of the requested context (any, if none) with an id
+// strictly above the last historically scanned one -- in arrival order (C03, C06)
+pub open spec fn wanted(f: Frame, ctx: Option<Scru128Id>, last_id: Option<Scru128Id>) -> bool {
+    &&& (ctx matches Some(c) ==> id_u128(f.context_id) == id_u128(c))
+    &&& (last_id matches Some(l) ==> id_u128(f.id) > id_u128(l))
+}
+pub open spec fn wanted_of(fs: Seq<Frame>, ctx: Option<Scru128Id>, last_id: Option<Scru128Id>) -> Seq<Frame> decreases fs.len() {
+    if fs.len() == 0 { Seq::empty() } else if wanted(fs.last(), ctx, last_id) { wanted_of(fs.drop_last(), ctx, last_id).push(fs.last()) }
+    else { wanted_of(fs.drop_last(), ctx, last_id) }
+}
+pub open spec fn live_post(rx0: &Rx, rx1: &Rx, options: ReadOptions, limit: Option<usize>,
+                           done: Option<Result<(Option<Scru128Id>, usize), RecvError>>) -> bool {
+    let sent = new_sent(rx0, rx1);
+    let got = recv_of(rx1.log).subrange(recv_of(rx0.log).len() as int, recv_of(rx1.log).len() as int);
+    let start: Option<(Option<Scru128Id>, usize)> = match done { Some(Ok(p)) => Some(p), Some(Err(_)) => None, None => Some((None, 0usize)) };
+    &&& sent_of(rx0.log).len() <= sent_of(rx1.log).len() && recv_of(rx0.log).len() <= recv_of(rx1.log).len()
+    // history failed / was cancelled: nothing is forwarded
+    &&& start is None ==> sent.len() == 0 && got.len() == 0
+    // forwards exactly the wanted frames among those received, in arrival order, each once (the last received
+    // one only if its send succeeded)
+    &&& start matches Some(p) ==> (sent =~= wanted_of(got, options.context_id, p.0)
+            || (got.len() > 0 && rx1.send_errs > rx0.send_errs && sent =~= wanted_of(got.drop_last(), options.context_id, p.0)))
+}
+// limit accounting of the live task given the count handed over by history (C11)
+pub open spec fn live_limit_post(rx0: &Rx, rx1: &Rx, limit: Option<usize>, done: Option<Result<(Option<Scru128Id>, usize), RecvError>>) -> bool {
+    let sent = new_sent(rx0, rx1);
+    let count0: int = match done { Some(Ok(p)) => p.1 as int, _ => 0 };
+    limit matches Some(l) ==> count0 + sent.len() <= l
+}
+
+//@@ slice file=src/store/mod.rs fn=read impl=Store name=read_live
+//@@ from: tokio::spawn(async move {
+//@@ from_nth: 0
+//@@ through_close
+//@@ inner
+//@@ strip: await
+//@@ before?: { if let Some(context_id) = options.context_id
+    invariant_except_break
+        rx.send_errs == old(rx).send_errs,
+        sn =~= wanted_of(g, options.context_id, last_id), //# read.live.forwards_exactly_wanted_in_order
+        limit matches Some(l) ==> count0 + sn.len() == count, //# read.live.counts_deliveries
+        limit matches Some(l) ==> (count < l || (count == l && count0 == l && sn.len() == 0)), //# read.live.limit_exact
+    invariant
+        recv_of(rx.log) =~= recv_of(old(rx).log) + g, sent_of(rx.log) =~= sent_of(old(rx).log) + sn,
+        limit matches Some(l) ==> count0 <= l, count0 < usize::MAX, count0 == (match done_rx { Some(Ok(p)) => p.1 as int, _ => 0 }),
+        old(rx).send_errs <= rx.send_errs,
+    ensures
+        rx.send_errs == old(rx).send_errs ==> sn =~= wanted_of(g, options.context_id, last_id),
+        rx.send_errs > old(rx).send_errs ==> g.len() > 0 && sn =~= wanted_of(g.drop_last(), options.context_id, last_id),
+        limit matches Some(l) ==> (count0 + sn.len() <= l || (count0 == l && sn.len() <= 1)),
+        count0 < (match limit { Some(l) => l as int, None => count0 + 1 }) ==> (limit matches Some(l) ==> count0 + sn.len() <= l),
+    decreases rx.bcast.len(),
+//@@ before_stmt?: let mut broadcast_rx =
+    let ghost count0: int = count as int;
+    let ghost mut g: Seq<Frame> = Seq::empty();
+    let ghost mut sn: Seq<Frame> = Seq::empty();
+    proof {
+        assert(recv_of(rx.log) + g =~= recv_of(rx.log));
+        assert(sent_of(rx.log) + sn =~= sent_of(rx.log));
+    }
+//@@ before_stmt?: if let Some(context_id) = options.context_id
+    broadcast use lemma_sent_push, lemma_recv_push;
+    proof {
+        let g0 = g;
+        g = g.push(frame);
+        assert(g.drop_last() =~= g0);
+    }
+//@@ before_stmt?: if let Some(limit) = limit
+    proof {
+        sn = sn.push(frame);
+    }
+//@@ header
+fn read_live(options: ReadOptions, limit: Option<usize>, tx: FrameSender, broadcast_rx: BroadcastReceiver,
+             done_rx: Option<Result<(Option<Scru128Id>, usize), RecvError>>, Tracked(rx): Tracked<&mut Rx>)
+    requires
+        // hand-off precondition: history never reports more deliveries than the limit (its own postcondition), and
+        // the count fits (it counts frames that were in memory)
+        done_rx matches Some(Ok(p)) ==> p.1 < usize::MAX && (limit matches Some(l) ==> p.1 <= l),
+        limit matches Some(l) ==> l >= 1,   // C11 quantifies over n >= 1
+    ensures
+        live_post(old(rx), final(rx), options, limit, done_rx), //# read.live.post
+        // C11 "limit is exact": the composition history -> live must never exceed the limit. Holds whenever history
+        // delivered fewer than `limit` frames ...
+        (done_rx matches Some(Ok(p)) && limit matches Some(l) && p.1 == l) || live_limit_post(old(rx), final(rx), limit, done_rx), //# read.live.limit_exact
+        // ... and must also hold when history delivered exactly `limit` frames
+        live_limit_post(old(rx), final(rx), limit, done_rx), //# read.live.limit_exact_handoff
+{
+    broadcast use lemma_sent_push, lemma_recv_push;
+    proof {
+        assert(new_sent(rx, rx) =~= Seq::<Frame>::empty());
+        assert(new_recv(rx, rx) =~= Seq::<Frame>::empty());
+    }
+//@@ epilogue
+    proof {
+        assert(new_sent(old(rx), rx) =~= sn);
+        assert(new_recv(old(rx), rx) =~= g);
+        assert(done_rx matches Some(Ok(p)) ==> last_id == p.0);
+        assert(done_rx is None ==> last_id is None);
+        if rx.send_errs == old(rx).send_errs { assert(sn =~= wanted_of(g, options.context_id, last_id)); }
+        else { assert(g.len() > 0); }
+    }
+}
+//@@ end
+pub open spec fn new_recv(rx0: &Rx, rx1: &Rx) -> Seq<Frame> {
+    recv_of(rx1.log).subrange(recv_of(rx0.log).len() as int, recv_of(rx1.log).len() as int)
+}
+
+// ================= heartbeat task =================
+#[verifier::external_body]
+pub fn sleep_stub(d: Duration) { unimplemented!() }
+//@@ slice file=src/store/mod.rs fn=read impl=Store name=read_heartbeat
+//@@ from: tokio::spawn(async move {
+//@@ from_nth: 1
+//@@ through_close
+//@@ inner
+//@@ strip: await
+//@@ rewrite: tokio::time::sleep( ==> sleep_stub(
+//@@ after_all: heartbeat_tx.send( ==> Tracked(rx),
+//@@ before?: { tokio::time::sleep(
+    invariant
+        sent_of(old(rx).log).len() <= sent_of(rx.log).len(),
+        // only xs.pulse markers (ephemeral, the subscriber's own context) are put on this read's own channel (C11)
+        forall|i: int| sent_of(old(rx).log).len() <= i < sent_of(rx.log).len() ==> is_marker(#[trigger] sent_of(rx.log)[i], "xs.pulse"@, options.context_id), //# read.heartbeat.only_pulse_markers
+        forall|i: int| 0 <= i < sent_of(old(rx).log).len() ==> #[trigger] sent_of(rx.log)[i] == sent_of(old(rx).log)[i],
+        gc_of(rx.log) == gc_of(old(rx).log) && !has_done(rx.log),
+//@@ before_stmt?: let frame =
+    broadcast use lemma_sent_push, lemma_gc_push, lemma_done_push;
+//@@ header
+#[verifier::exec_allows_no_decreases_clause]
+fn read_heartbeat(duration: Duration, options: ReadOptions, heartbeat_tx: FrameSender, Tracked(rx): Tracked<&mut Rx>)
+    requires !has_done(old(rx).log),
+    ensures
+        sent_of(old(rx).log).len() <= sent_of(final(rx).log).len(),
+        forall|i: int| sent_of(old(rx).log).len() <= i < sent_of(final(rx).log).len() ==> is_marker(#[trigger] sent_of(final(rx).log)[i], "xs.pulse"@, options.context_id), //# read.heartbeat.only_pulse_markers
+{
+//@@ epilogue
+}
+//@@ end
+
+// ================= prologue of Store::read: who is started, in which order =================
+#[verifier::external_body] pub struct BroadcastSender { _p: () }
+#[verifier::external_body] pub struct FrameReceiver { _p: () }
+#[verifier::external_body] pub struct DoneReceiver { _p: () }
+pub struct StoreR { pub broadcast_tx: BroadcastSender, pub gc_tx: GcSender }
+impl Clone for StoreR { #[verifier::external_body] fn clone(&self) -> (r: StoreR) { unimplemented!() } }
+impl Clone for GcSender { #[verifier::external_body] fn clone(&self) -> (r: GcSender) { unimplemented!() } }
+impl Clone for FrameSender { #[verifier::external_body] fn clone(&self) -> (r: FrameSender) { unimplemented!() } }
+impl BroadcastSender {
+    #[verifier::external_body]
+    pub fn subscribe(&self, Tracked(rx): Tracked<&mut Rx>) -> (r: BroadcastReceiver)
+        ensures final(rx).log == old(rx).log.push(RxEv::Subscribe), final(rx).send_errs == old(rx).send_errs, final(rx).bcast == old(rx).bcast,
+    { unimplemented!() }
+}
+pub mod chan {
+    #[allow(unused_imports)] use super::*;
+    #[verifier::external_body] pub fn channel(n: usize) -> (r: (FrameSender, FrameReceiver)) { unimplemented!() }
+    #[verifier::external_body] pub fn oneshot() -> (r: (DoneSender, DoneReceiver)) { unimplemented!() }
+    #[verifier::external_body]
+    pub fn spawn_history(Tracked(rx): Tracked<&mut Rx>)
+        ensures final(rx).log == old(rx).log.push(RxEv::SpawnHistory), final(rx).send_errs == old(rx).send_errs, final(rx).bcast == old(rx).bcast,
+    { unimplemented!() }
+    #[verifier::external_body]
+    pub fn spawn_task(Tracked(rx): Tracked<&mut Rx>, which: u8)
+        ensures final(rx).log == old(rx).log.push(if which == 0 { RxEv::SpawnLive } else { RxEv::SpawnHeartbeat }),
+            final(rx).send_errs == old(rx).send_errs, final(rx).bcast == old(rx).bcast,
+    { unimplemented!() }
+}
+pub open spec fn follows(o: ReadOptions) -> bool { o.follow is On || o.follow is WithHeartbeat }
+pub open spec fn read_prologue_log(o: ReadOptions) -> Seq<RxEv> {
+    let a = if follows(o) { seq![RxEv::Subscribe] } else { Seq::<RxEv>::empty() };
+    let b = if !o.tail { a.push(RxEv::SpawnHistory) } else { a };
+    let c = if follows(o) { b.push(RxEv::SpawnLive) } else { b };
+    if o.follow is WithHeartbeat { c.push(RxEv::SpawnHeartbeat) } else { c }
+}
+impl StoreR {
+//@@ item file=src/store/mod.rs fn=read impl=Store ret=r
+//@@ strip: async await
+//@@ rewrite: tokio::sync::mpsc::Receiver<Frame> ==> ! FrameReceiver
+//@@ rewrite: tokio::sync::mpsc::channel( ==> ! chan::channel(
+//@@ rewrite: tokio::sync::oneshot::channel( ==> ! chan::oneshot(
+//@@ after_all: fn read(&self, ==> Tracked(gx): Tracked<&mut Rx>,
+//@@ after_all: .subscribe( ==> Tracked(gx),
+//@@ elide_arg: std::thread::spawn( ==> Tracked(gx)
+//@@ rewrite: std::thread::spawn( ==> ! chan::spawn_history(
+//@@ elide_arg: tokio::spawn( ==> Tracked(gx), $n
+//@@ rewrite: tokio::spawn( ==> chan::spawn_task(
+//@@ spec
+    ensures
+        // the broadcast subscription is taken (iff following) BEFORE the historical scan is started (iff not tail);
+        // the live task is started iff following, the heartbeat task iff a heartbeat was asked for (C03, C11)
+        final(gx).log =~= old(gx).log + read_prologue_log(options), //# read.prologue.subscribe_before_scan
+//@@ end
+}
 
 // what the history thread guarantees (C01, C03, C11), in terms of F = the frames iter_frames yields
 pub open spec fn new_sent(rx0: &Rx, rx1: &Rx) -> Seq<Frame> {
